@@ -283,9 +283,14 @@ func (d *db) close() error {
 
 	var err error
 	err = firstError(err, d.mu.logWriter.close())
-	// the saved index must not refer to records that are not persisted
-	err = firstError(err, d.mu.logFile.Sync())
-	err = firstError(err, d.saveIndex())
+	// the saved index must not refer to records that are not persisted, when the
+	// log can not be persisted the index is not saved, it is rebuilt from the
+	// log when the db is opened again
+	if serr := d.mu.logFile.Sync(); serr != nil {
+		err = firstError(err, serr)
+	} else {
+		err = firstError(err, d.saveIndex())
+	}
 	// Note that versionSet.close() only closes the MANIFEST. The versions list
 	// is still valid for the checks below.
 	err = firstError(err, d.mu.versions.close())
